@@ -177,7 +177,7 @@ fn main() {
                     }
                     Err(p) => cr.violations.push(panic_viol(p, "small", desc())),
                 }
-                if cr.violations.len() > 6 {
+                if distinct_sigs(&cr.violations) > 6 || cr.violations.len() > 2000 {
                     break;
                 }
             }
@@ -191,7 +191,7 @@ fn main() {
             if i % 37 == 0 {
                 cr.sample = Some(json!({"shape": name, "script": sname, "order": ord, "drop_points": pk.len() + 1, "writers": nw}));
             }
-            cr.violations.truncate(4);
+            limit(&mut cr.violations, 4);
             cr
         }));
         // ---- hand-written FDT without FEC-OTI attributes: the writer is created inside push()
@@ -276,7 +276,7 @@ fn main() {
                     }
                     Err(p) => cr.violations.push(panic_viol(p, "fdt_without_oti", desc())),
                 }
-                if cr.violations.len() > 4 {
+                if distinct_sigs(&cr.violations) > 4 || cr.violations.len() > 2000 {
                     break;
                 }
             }
@@ -290,7 +290,7 @@ fn main() {
             if i % 29 == 0 {
                 cr.sample = Some(json!({"fec": fec, "len": len, "script": sname, "variant": variant, "writers": nw, "xml": xml}));
             }
-            cr.violations.truncate(3);
+            limit(&mut cr.violations, 3);
             cr
         }));
         // ---- malformed histories x failing writers
